@@ -52,6 +52,9 @@ def run(repo, rep, tier):
     _dollar(repo, rep)
     marker_on_text(repo, rep)
     L.option_defaults_rule(repo, rep, "R06.1", ("enable_comment_interpolation",))
+    L.innermost_rule(repo, rep, "R06.2",
+                     ("chameleon.zpt.program.MacroProgram",),
+                     only=("_interpolation",))
     L.state_rule(repo, rep)
 
 
